@@ -11,16 +11,18 @@ CHECKS = {
                 technique="explicit-state BFS over operation histories executed on the real binary, from-scratch evaluation oracle",
                 text="Every history up to depth d (quick 3, thorough 4-5) of build commands, source edits/touches, target removals and .do switches "
                      "over the curated worlds (thorough: plus all rooted DAGs with <=3 targets) is executed on the real binary; after every exit-0 "
-                     "build the requested closure is compared with an independent from-scratch evaluation. Exhaustive within the stated bound; "
-                     "nothing is sampled.",
+                     "build the requested closure is compared with an independent from-scratch evaluation. In some worlds the alphabet also contains "
+                     "interrupted builds (redo-ifchange killed, whole tree, when a chosen script reaches a chosen position; at most one kill per history). "
+                     "Exhaustive within the stated bound; nothing is sampled.",
                 note="Trusted: kernel/sh/SQLite semantics, the reference evaluator (60 lines), the canonical-key argument of DESIGN.md appendix C. "
                      "Graphs beyond the listed worlds and histories beyond depth d are not covered."),
     "C02": dict(engine="E1", category="model_checking", design_ref="DESIGN.md §4 C02",
                 technique="explicit-state BFS over operation histories on the real binary; executed-script multiset vs reference build simulation",
                 text="Same bounded history space as C01; for every build command the multiset of executed .do scripts (append-only trace written by the "
                      "generated scripts) must equal the reference simulation that tracks, per target, the versions of the dependencies seen at its last "
-                     "successful build (incl. its .do file and absent higher-priority candidates); each script at most once. Exhaustive within depth d.",
-                note="Reference model (rv/refmodel.py) is trusted; two documented slack rules (S1,S2) follow the observation. -j1 only; parallel runs are C07."),
+                     "successful build (incl. its .do file and absent higher-priority candidates); each script at most once. Also: interrupted builds (kill points inside "
+                     "scripts) and hand edits of generated files as operations of the history. Exhaustive within depth d.",
+                note="Reference model (rv/refmodel.py) is trusted; three documented slack rules (S1,S2,S3: a target whose build was interrupted may be re-run) follow the observation. -j1 only; parallel runs are C07."),
     "C03": dict(engine="E1", category="model_checking", design_ref="DESIGN.md §4 C03",
                 technique="explicit-state BFS over operation histories on worlds with checksummed nodes; cut-off/forwarding vs reference simulation",
                 text="All histories <= d (quick 3, thorough 4-5) over worlds with a redo-stamp node at depth 1..3, two in series and one with plain+always "
@@ -30,8 +32,9 @@ CHECKS = {
                 note="Trusted: reference model; flat worlds; -j1."),
     "C04": dict(engine="E3 (observe mode) + behaviour matrix", category="fault_enumeration", design_ref="DESIGN.md §4 C04",
                 technique="exhaustive enumeration of script behaviours x sizes x prior states, target observed at every state-changing libc call boundary of every redo process",
-                text="Every combination of 11 script behaviours (stdout, $3, nothing, both, write $1, write $1+stdout, create-then-delete $3, output then exit 5, "
-                     "partial output then SIGKILL/SIGTERM) x output sizes {1, 4096, 70000} x prior target state {absent, previously generated} is built under an "
+                text="The full product of script behaviours stdout {none, data} x $3 {untouched, empty, written, written-then-deleted, appended} x $1 {untouched, written, written with "
+                     "an older mtime} x end {exit 0, exit 5, SIGKILL / SIGTERM in mid-output} x output sizes {1, 4096, 70000} x prior target state {absent, previously generated, "
+                     "and both again with a temporary file left behind by a killed build} is built under an "
                      "LD_PRELOAD shim that stops every redo process before each state-changing libc call; at every such instant the target is absent-as-before, the "
                      "complete old bytes or the complete new bytes; final bytes, exit status (206/207/script's own), no *.redo.tmp left, and redo's only mutation of "
                      "the target path is one rename(tmp->target) after status 0 or one unlink in the no-output case.",
@@ -46,13 +49,15 @@ CHECKS = {
                      "target, no `do` record after a non-zero `done` within a process, contents after exit 0.",
                 note="Serial (-j1) enumeration is complete for this world and list length <=3; other graph shapes are covered only through C01/C02's fail world. "
                      "Second family: driver scripts run every sequence of <=3 redo / redo-ifchange commands inside ONE run. Parallel half (E2): redo -j2 [-k] "
-                     "with the failing leaf, every schedule with <= b deviations."),
+                     "with the failing leaf, every schedule with <= b deviations; and a second invocation whose first target is locked by another invocation "
+                     "while its second target fails (it must not go on to build the first)."),
     "C06": dict(engine="E2", category="model_checking", design_ref="DESIGN.md §4 C06, appendix A",
                 technique="stateless model checking of 2-3 concurrent real invocations under a controlled scheduler; interval-overlap and commit-before-handover oracle on the event order",
                 text="Two or three top-level invocations contending for one target, for a shared dependency, redo against redo-ifchange, and an invocation that takes an error "
                      "exit while its job is still running; every schedule with <= b deviations (quick 1, thorough 2-3) at lock try/wait/unlock, transaction begin, event loop, fork "
                      "hand-over, token pipe and script gates; plus the out-of-band (redo-unlocked) rebuild against a second invocation, and an environment player that "
-                     "SIGKILLs a whole invocation tree at any step while a second invocation wants the same targets (the survivor must exit 0 with correct contents). "
+                     "SIGKILLs a whole invocation tree at any step while a second invocation wants the same targets (the survivor must exit 0 with correct contents); "
+                     "and two invocations that reach one file through two names of its directory (a symbolic link). "
                      "From the scheduler's total event order: begin/end of one target's script never overlap; between a script's end and "
                      "the next acquisition of that target's lock there is a record-begin followed by COMMIT from the recording process; every finished execution is recorded.",
                 note="Script begin/end come from the generated scripts (trap EXIT). SIGKILL of an invocation's parent only (kernel frees fcntl locks of a dead owner while its "
@@ -60,32 +65,37 @@ CHECKS = {
     "C07": dict(engine="E2", category="model_checking", design_ref="DESIGN.md §4 C07, appendix A",
                 technique="stateless model checking of one parallel invocation under a controlled scheduler; differential oracle against the serial run",
                 text="One invocation at -j2/-j3 on graphs with shared nodes (diamond, 3-fan over a shared leaf, two targets over a shared chain in every command-line order "
-                     "= every --shuffle outcome, shared checksummed node on a rebuild, shared redo-always node); every schedule with <= b deviations (quick 1, thorough 2). "
+                     "= every --shuffle outcome, shared checksummed node on a rebuild, a shared target that stopped recording a checksum, shared redo-always node); every schedule with <= b deviations (quick 1, thorough 2). "
                      "No script starts twice; exit status, every file's content, the set of built targets and the canonical database state (flags, csum, stamp class, which "
                      "run-id columns are set, dependency edges) equal the serial run's.",
                 note="The shuffle permutation hook of the design was replaced by enumerating the command-line orders explicitly (same set of orders). Graph sizes as listed."),
     "C08": dict(engine="E2 + harness as jobserver parent", category="model_checking", design_ref="DESIGN.md §4 C08, appendix A",
                 technique="stateless model checking with the harness owning the GNU-make token pipe; token-conservation and concurrency-limit oracle on the event order",
                 text="Own mode (redo -jN: 3-fan, fan plus sibling, failing fan, error exit) and inherited mode (the harness creates the token pipe with N-1 tokens and the cheat "
-                     "pipe and passes them via MAKEFLAGS/REDO_CHEATFDS), with and without log capture (real redo-log follower in the scheduled tree); every schedule with <= b "
+                     "pipe and passes them via MAKEFLAGS/REDO_CHEATFDS; in the *-make-competes scenarios it also takes and returns tokens), with and without log capture (real redo-log "
+                     "follower in the scheduled tree), including two scenarios built so that the followed sub-redo has to CHEAT (token starvation while it waits for a lock: it "
+                     "then finds the target up to date, or builds it itself with the borrowed token); every schedule with <= b "
                      "deviations (quick 1, thorough 2). Peak number of scripts inside work sections <= N (+1 only after a cheat grant); toplevel self-check and hook-reported "
                      "counts equal N; inherited pipe holds exactly N-1 tokens and the cheat pipe is empty after all processes exited, on success, failure and error exit.",
                 note="Evidence reports the distinct ready-sets seen at event-loop wake-ups and how many executions granted a cheat token (a run where that is 0 has not "
-                     "exercised cheating). The harness itself never takes tokens."),
+                     "exercised cheating). Scripts in the cheat scenarios wait for each other through scheduler-visible flags (Spec.sync), which makes the contention the default schedule."),
     "C09": dict(engine="E2", category="model_checking", design_ref="DESIGN.md §4 C09, appendix A",
                 technique="stateless model checking of the real process tree under a controlled scheduler, iterative deviation bounding",
                 text="Every schedule with <= b deviations (quick b=1, thorough b=2) from the default policy is executed on the real binary, one process running "
                      "at a time between feature-guarded gates (event-loop wake-ups with the exact ready set, token/cheat pipe reads and writes, lock try/wait/unlock, "
                      "fork hand-overs, select! order, script gates). Scenarios: sub-redo with three children plus a sibling job at -j2/-j3, two top-level invocations on "
-                     "one target, the same target under two spellings, two sub-redos wanting each other's targets, diamond/fan at -j2/-j3, a failing fan. Oracle on every "
+                     "one target (two deviations already in the quick tier), the same target under two spellings, two sub-redos wanting each other's targets, diamond/fan at -j2/-j3, a failing fan, "
+                     "token cheating under log capture, and a minute-long wait for a token (80 polling intervals in virtual time). Oracle on every "
                      "execution: no panic / exit 101, no deadlock, no livelock, termination, exit 0 when all scripts succeed.",
                 note="Interleavings inside an SQLite immediate transaction and inside the kernel are not distinguished; time in the jobserver is virtual; at most 2 "
                      "top-level invocations and the listed graphs; schedules beyond the deviation bound are not covered."),
     "C10": dict(engine="E3", category="fault_enumeration", design_ref="DESIGN.md §4 C10, appendix D",
                 technique="exhaustive crash-point enumeration: SIGKILL before every state-changing libc call of every redo process, then recovery history and oracle",
-                text="For worlds chain (quick) plus csum-mid and default (thorough), pre-states {first build, incremental rebuild after an edit}, scopes {that process only, "
+                text="For worlds chain, csum-mid, chain-append (quick) plus default and dynamic (thorough), pre-states {first build, incremental rebuild after an edit that keeps / that changes "
+                     "a checksum, rebuild after the target was removed, rebuild after a hand edit was noticed and the file removed}, scopes {that process only, "
                      "whole tree}: the build is killed immediately before EVERY state-changing libc call (rename, unlink, open-for-write/create, write to the database, WAL, log, "
-                     "ftruncate, mkdir...) of every redo process (k = 1..N per logical process, ~280 points quick, ~1200 thorough); then `redo-ifchange top` must terminate, "
+                     "ftruncate, mkdir...) of every redo process (k = 1..N per logical process) and, whole tree, at every script boundary (script start, after each dependency "
+                     "request, after the output was written) -- ~1100 points quick, ~3000 thorough; then `redo-ifchange top` must terminate, "
                      "exit 0, give from-scratch contents without 'you modified it', react correctly to editing every source, leave redo-ood empty, no lock held and no *.redo.tmp.",
                 note="Crash = process kill at libc-call boundaries (the property's quantifier), not power loss. Shim coverage cross-checked against strace -f. -j1, REDO_LOG=0. "
                      "The counting run is done twice and must agree."),
@@ -94,14 +104,16 @@ CHECKS = {
                 text="2-3 top-level commands (builds and read-only queries) started together on a project without .redo and on an existing database; every schedule with "
                      "<= b deviations (quick 1, thorough 2-3) at the gates database-open, transaction begin, locks, event loop, scripts is executed on the real binary. "
                      "Oracle: every command exits 0 with no SQLite/busy/lock message, integrity_check ok, every Files row and Deps edge each command must write is present, "
-                     "contents correct, run ids unique.",
+                     "contents correct, run ids unique. Plus an environment player outside the scheduler: an external connection holds the write lock for each of an enumerated "
+                     "list of hold times (0.2 s .. 8 s quick, .. 20 s thorough) while four commands start; all must wait and succeed.",
                 note="No gate inside an IMMEDIATE transaction (mutually excluded by SQLite, atomic for other processes). <= 3 commands; all scripts succeed."),
     "C11": dict(engine="E1", category="model_checking", design_ref="DESIGN.md §4 C11",
                 technique="explicit-state BFS over histories mixing builds with user create/edit/replace/remove, ownership-ledger oracle",
                 text="All histories <= d (quick 3, thorough 5) of {redo-ifchange a.x|t|all, redo a.x|t, edit src, user-edit in place (two sizes), user-replace (new inode), "
                      "user-rm} for a name matched by default.x.do and a name with a specific t.do; an ownership ledger records the last writer of each path. Every redo "
                      "command must leave bytes and inode of every user-owned path unchanged, warn when it skips a user-modified generated file, run only scripts the reference "
-                     "allows and rebuild correctly after the user removed the file.",
+                     "allows and rebuild correctly after the user removed the file. Also a user-made symbolic link under a name the default rule matches, and a second world in which the "
+                     "user edits and removes a checksummed target that has a dependent.",
                 note="-j1; two names, one default and one specific rule. Edits that keep mtime AND size identical are not generated (redo's documented detection is by mtime/size)."),
     "C12": dict(engine="E1 (-j1) + E2 (-j2)", category="model_checking", design_ref="DESIGN.md §4 C12",
                 technique="exhaustive enumeration of cyclic graph family x entry points at -j1; stateless schedule exploration at -j2 with deadlock/livelock detection",
@@ -122,7 +134,7 @@ CHECKS = {
                 text="All histories <= d (quick 3-4, thorough 5-6) of {redo-ifchange, create f, delete f, edit f, edit unrelated u} on worlds declaring "
                      "redo-ifcreate (conditionally and unconditionally) and of {redo-ifchange, redo, edit} on redo-always worlds with 2 and 3 dependents; "
                      "rebuilt iff the watched path came into existence, never for unrelated edits; ifcreate of an existing path fails; the always-target "
-                     "runs exactly once in every run that needs it and not otherwise.",
+                     "runs exactly once in every run that needs it and not otherwise. One world watches a path that is a dangling symbolic link.",
                 note="Parallel part (E2): the always-target with 2-3 dependents requested concurrently at -j2/-j3, all schedules <= b deviations. Flat worlds."),
     "C15": dict(engine="E4 (+E1/E2 end-to-end spellings)", category="exploration", design_ref="DESIGN.md §4 C15",
                 technique="exhaustive enumeration of all strings <= n over {a,b,.,/} and all (cwd,t,base) triples in a real tree with symlinks; kernel stat identity as ground truth",
@@ -130,12 +142,13 @@ CHECKS = {
                      "equals an independent Clean, is idempotent, and whenever stat(x) succeeds in a symlink-free real tree stat(normpath(x)) names the same inode. "
                      "relpath/realdirpath over all triples of 6 working directories x ~75 spellings x 15 bases in a real tree with directory symlinks: re-joining "
                      "reaches the same directory entry (lstat identity).",
-                note="Kernel path resolution is the ground truth. Alphabets as stated; longer strings not covered. End-to-end one-record/one-lock/one-build part: see extra_checks."),
+                note="Kernel path resolution is the ground truth. Alphabets as stated; longer strings not covered. End-to-end part: every ordered pair of spellings on one command line "
+                     "(unscheduled, -j1/-j2), and scheduled scenarios (E2, <= b deviations): several spellings while another invocation holds the lock, two invocations with different spellings, also through a directory symlink."),
     "C17": dict(engine="E1", category="model_checking", design_ref="DESIGN.md §4 C17",
                 technique="explicit-state BFS over histories with query commands probed in every reached state and a shadow replay with queries interleaved",
                 text="Every state reached by the C01/C02 history space (depth <= d) is probed with redo-ood, redo-targets, redo-sources: lower <= ood <= upper "
                      "against the reference model, targets/sources disjoint and consistent with the ownership ledger; and each deepest history is replayed with all "
-                     "three queries inserted after every step: exit codes, executed scripts, file contents and the final canonical database key must be identical.",
+                     "three queries inserted after every step: exit codes, executed scripts, file contents and the final canonical database key must be identical. One world adds hand edits of generated files.",
                 note="Reference model trusted; 'known files' taken from the implementation's Files table. -j1."),
     "C18": dict(engine="E4 (records) + E2 (schedules with the real redo-log follower)", category="model_checking", design_ref="DESIGN.md §4 C18",
                 technique="exhaustive enumeration of record values for format/parse round trip; stateless schedule exploration of builds whose scripts write tagged stderr lines",
